@@ -92,7 +92,7 @@ pub fn order_ops<T: DeserializeOwned + Ord + Eq + Hash + Clone>(docs: &[String])
 }
 
 /// C12: PLAIN text -> value -> PLAIN text.
-pub fn plain_rt<T: FromPlain + Plain + PartialEq>(text: &str) -> Value
+pub fn plain_rt<T: FromPlain + Plain + PartialEq + std::fmt::Debug>(text: &str) -> Value
 where
     T::Err: std::fmt::Display,
 {
@@ -100,7 +100,9 @@ where
         Ok(v) => {
             let printed = v.to_plain();
             let again = T::from_plain(&printed).ok().map(|w| w == v);
-            json!({"ok": printed, "reparse_equal": again})
+            let mut dbg = format!("{v:?}");
+            dbg.truncate(120);
+            json!({"ok": printed, "reparse_equal": again, "debug": dbg})
         }
         Err(e) => json!({"err": e.to_string()}),
     }
